@@ -28,9 +28,10 @@ TRUSTED_BASE = [
     'cancel() stops only a timer that has not expired; harness/fakes/c10_retry.py implements exactly this for the real code',
     'dict semantics assumed: insertion-ordered keys, assignment to an existing key keeps its position',
     'generate(): fail-closed ast extraction of every assignment to needs_resending / _has_safelink in cflib/crtp/'
-    '{crtpdriver,usbdriver,radiodriver}.py into coq/C10/Gen_Drivers.v (theorems C10_driver_flags, '
-    'C10_usb_and_safelink_no_retry are re-checked against it on every run); the oracle reads the flag from the real '
-    'driver objects (radio thread run against a scripted radio)',
+    '{crtpdriver,usbdriver,radiodriver}.py into coq/C10/Gen_Drivers.v (C10/Property_drivers.v: C10_driver_flags, '
+    'C10_radio_flag_follows_last_handshake, C10_usb_and_safelink_no_retry are re-checked against it on every run); the '
+    'oracle reads the flag from the real driver objects and runs histories of connect/pause/restart/close on one real '
+    'RadioDriver against a scripted radio, followed by a retry scenario on the real Crazyflie with that link object',
 ]
 ASSUMPTIONS = [
     'granularity: send_packet, the retry function, _check_for_answers, close_link, open_link, _link_error_cb execute '
@@ -237,6 +238,113 @@ def check_drivers():
                           'detail': 'link driver state %s: needs_resending must be %s (%s), is %s'
                                     % (which, want, 'requests are retried' if want else 'delivery is guaranteed, no retry', got)})
     return fails
+
+
+# ------------------------------------------------------------------ drivers: histories on ONE RadioDriver object
+def run_radio_history(hist):
+    """hist = [[how, lost], ...]: how in 'connect' (first) / 'restart' (pause(); restart()) / 'reconnect' (close(); connect());
+    lost = handshake packets lost before the peer echoes (0xff,0x05,0x01), 10 = never echoed (no safelink this session).
+    The real RadioDriver / _RadioDriverThread code runs synchronously against a scripted radio (Thread.start of the radio
+    thread is replaced by a direct call of run(); the radio stops the thread at its first packet after the handshake).
+    After every start-up: the flag of the real object, then a retry scenario on the real Crazyflie with this very link
+    object (only its send_packet is replaced by a recorder): one request with an expected reply, timeout 50 ms, no reply,
+    400 ms of virtual time with ideal timers.  Returns [(flag, transmission times)] per session."""
+    from cflib.crtp import radiodriver
+    from cflib.crtp.crtpstack import CRTPPacket
+
+    class Ack:
+        ack, powerDet, retry = True, False, 0
+
+        def __init__(self, data):
+            self.data = tuple(data)
+
+    class Radio:
+        version = 1.0
+
+        def __init__(self):
+            self.cur, self.lost, self.tries = None, 0, 0
+
+        def set_channel(self, c): pass
+        def set_data_rate(self, d): pass
+        def set_address(self, a): pass
+        def set_arc(self, a): pass
+        def close(self): pass
+
+        def send_packet(self, data):
+            data = tuple(data)
+            if data == (0xff, 0x05, 0x01) and self.tries < 10:
+                self.tries += 1
+                return Ack(data) if self.tries > self.lost else Ack(())
+            self.cur._sp = True         # first packet after the handshake: stop the loop
+            return None
+    radio = Radio()
+    saved = (radiodriver.RadioManager.__dict__['open'], radiodriver._RadioDriverThread.start)
+
+    def start(th):
+        radio.cur, radio.tries = th, 0
+        th.run()
+    out = []
+    link = None
+    try:
+        radiodriver.RadioManager.open = staticmethod(lambda devid: radio)
+        radiodriver._RadioDriverThread.start = start
+        link = radiodriver.RadioDriver()
+        for k, (how, lost) in enumerate(hist):
+            radio.lost = lost
+            if how == 'connect':
+                link.connect('radio://0/80/2M', None, None)
+            elif how == 'restart':
+                link.pause()
+                link.restart()
+            else:
+                link.close()
+                link.connect('radio://0/80/2M', None, None)
+            flag = link.needs_resending
+            r = drv.Run()
+            times = []
+            try:
+                link.send_packet = lambda pk, _r=r, _t=times: _t.append(_r.now)
+                r.cf.link = link
+                r.cf.send_packet(CRTPPacket(0x90, [k + 1, 7]), expected_reply=(k + 1,), timeout=0.05)
+                r.step(['advfire', 400])
+            finally:
+                r.cf.link = None
+                link.__dict__.pop('send_packet', None)
+                r.finish()
+            out.append((flag, times))
+    finally:
+        setattr(radiodriver.RadioManager, 'open', saved[0])
+        radiodriver._RadioDriverThread.start = saved[1]
+    return out
+
+
+def check_radio_history(hist):
+    try:
+        got = run_radio_history(hist)
+    except Exception as e:
+        return {'class': 'radio_driver_history_raises', 'case': {'radio_history': hist}, 'expected': 'no exception',
+                'observed': repr(e), 'detail': 'connect/pause/restart/close on one RadioDriver object raised'}
+    for k, ((how, lost), (flag, times)) in enumerate(zip(hist, got)):
+        unsafe = lost >= 10
+        want = list(range(0, 401, 50)) if unsafe else [0]
+        if flag is not unsafe or times != want:
+            return {'class': 'radio_session_retry_does_not_follow_its_handshake', 'case': {'radio_history': hist},
+                    'expected': {'needs_resending': unsafe, 'transmissions_ms': want},
+                    'observed': {'needs_resending': flag, 'transmissions_ms': times},
+                    'detail': 'session %d of one RadioDriver object (%s, safelink handshake %s): needs_resending is %s and an '
+                              'unanswered request with timeout 50 ms is transmitted at %s within 400 ms; a link that does not '
+                              'guarantee delivery must be retried at the timeout interval, one that does must not'
+                              % (k, how, 'never echoed' if unsafe else 'echoed after %d lost packets' % lost, flag, times)}
+    return None
+
+
+def radio_histories(maxlen):
+    import itertools
+    outs = (0, 3, 10)
+    for n in range(1, maxlen + 1):
+        for first in outs:
+            for rest in itertools.product(itertools.product(('restart', 'reconnect'), outs), repeat=n - 1):
+                yield [['connect', first]] + [list(x) for x in rest]
 
 
 # ------------------------------------------------------------------ events -> Coq
@@ -630,6 +738,13 @@ def enum_cases(depth):
 
 def oracle(ctx, deep=False):
     fails, seen = check_drivers(), set()
+    n_hist = 0
+    for h in radio_histories(ctx.scale(3, 4)):
+        n_hist += 1
+        f = check_radio_history(h)
+        if f and f['class'] not in {x['class'] for x in fails}:
+            # shortest failing history first (enumeration is by length): no further shrinking needed
+            fails.append(f)
     cases = corpus_cases() + list(enum_cases(ctx.scale(3, 5)))
     for _ in range(ctx.scale(4000, 80000) * (3 if deep else 1)):
         cases.append(gen_case(ctx.rng, ideal=ctx.rng.random() < 0.6))
@@ -638,7 +753,7 @@ def oracle(ctx, deep=False):
         if f and f['class'] not in seen:
             seen.add(f['class'])
             fails.append(_shrink(f))
-    return {'evaluations': len(cases), 'failures': fails,
+    return {'evaluations': len(cases) + n_hist, 'failures': fails,
             'rule': 'property text on what the fake links saw: no packet on a closed/replaced link, every request only in '
                     'its own session, one transmission without expectation or on a reliable link, none after the answer '
                     '(longest pending pattern that is a prefix) or the end of the session, and with ideal timers '
@@ -646,6 +761,8 @@ def oracle(ctx, deep=False):
 
 
 def replay(payload, ctx):
+    if 'radio_history' in payload['case']:
+        return check_radio_history(payload['case']['radio_history'])
     if 'driver' in payload['case']:
         fs = [f for f in check_drivers() if f['case'] == payload['case']]
         return fs[0] if fs else None
